@@ -48,6 +48,11 @@ func verifyLine(ic pmtiles.Compression, pad bool, size int, h pmtiles.HeaderV3, 
 func idZoom(id uint64) uint8 { z, _, _ := pmtiles.IDToZxy(id); return z }
 
 func (C15) Gen(r *core.Rng, tier string, emit func(string)) {
+	if tier == "thorough" {
+		emit = cliDup(emit, []string{"verify"}, 9, 300)
+	} else {
+		emit = cliDup(emit, []string{"verify"}, 9, 25)
+	}
 	n := 250
 	if tier == "thorough" {
 		n = 8000
@@ -209,7 +214,7 @@ func (C15) Gen(r *core.Rng, tier string, emit func(string)) {
 }
 
 func (C15) RunGo(line string) string {
-	t := strings.Fields(line)
+	cliMode, t := splitCLI(strings.Fields(line))
 	if t[0] != "verify" || len(t) < 30 {
 		return "bad-case"
 	}
@@ -245,7 +250,10 @@ func (C15) RunGo(line string) string {
 	path := scratchFile(".pmtiles")
 	os.WriteFile(path, ab, 0o644)
 	defer os.Remove(path)
-	err := pmtiles.Verify(discardLogger, path)
+	err := opVerify(cliMode, path)
+	if err == errNoCLI {
+		return "no-cli-binary"
+	}
 	if err == nil {
 		return "ok"
 	}
@@ -288,7 +296,7 @@ func (C15) Branch(line, goOut string) string { return goOut }
 
 // Oracle: `Consistent` evaluated independently from header fields + flattened entries.
 func (C15) Oracle(line, goOut string) string {
-	t := strings.Fields(line)
+	_, t := splitCLI(strings.Fields(line))
 	size, _ := strconv.Atoi(t[3])
 	h, _ := parseHdrFields(t[4:29])
 	dirs, _, ok := parseDirsLine(t[29:])
